@@ -1283,6 +1283,9 @@ func runC19Cand(c *Ctx) {
 	if nSub == 0 {
 		c.bad("(*RuleMatrix).checkExclude|exclude value against candidates", fn.Pos(), "exclude values are not matched with the subset test")
 	}
+	for _, call := range subCalls {
+		c19ExcludeVerdict(c, call)
+	}
 	// unknown key
 	okUnknown := false
 	var errCalls []ssa.CallInstruction
